@@ -288,11 +288,15 @@ class Inliner:
                 inside_c = {id(x) for x in ast.walk(c)}
                 ancestors = {id(a) for a in calls if a is not c and any(x is c for x in ast.walk(a))}
                 blocked = False
-                for k in calls:
-                    if k is c or id(k) in inside_c or id(k) in ancestors:
-                        continue
-                    if (k.lineno, k.col_offset) < (c.lineno, c.col_offset):
-                        blocked = True
+                from .normalize import evaluation_order
+                order = evaluation_order(h_expr)
+                cpos = next((i_ for i_, z in enumerate(order) if z is c), None)
+                if cpos is None:
+                    blocked = True
+                else:
+                    for k in order[:cpos]:
+                        if isinstance(k, (ast.Call, ast.NamedExpr, ast.Await, ast.Yield, ast.YieldFrom)) and id(k) not in inside_c:
+                            blocked = True
                 for y in ast.walk(h_expr):
                     if isinstance(y, (ast.Lambda, ast.ListComp, ast.SetComp, ast.DictComp, ast.GeneratorExp, ast.IfExp, ast.NamedExpr)) and any(x is c for x in ast.walk(y)):
                         blocked = True
@@ -474,5 +478,13 @@ class Inliner:
         return self.tree
 
 
+STATS = {"expanded": 0, "helpers": []}
+
+
 def inline_new_helpers(tree, module_short):
-    return Inliner(tree, module_short).run()
+    inl = Inliner(tree, module_short)
+    out = inl.run()
+    if inl.expanded:
+        STATS["expanded"] += inl.expanded
+        STATS["helpers"] += sorted(["%s:%s" % (module_short, n) for n in inl.funcs] + ["%s:%s.%s" % (module_short, c, n) for c, n in inl.methods])
+    return out
